@@ -87,3 +87,63 @@ def run_probe(prop, obligation, scratch, only_file=None):
         _CACHE[(scratch.dir, fn)] = (int(mres.group(3)) > 0, keep[-12000:])
         return _CACHE[(scratch.dir, fn)]
     return None, ""
+
+
+def prefetch(scratch, files):
+    """Run several probes in ONE cargo test invocation (one compilation of the crate): every probe module is appended
+    to its source file, the tests run one after the other (--test-threads=1, so that their output does not interleave),
+    and the per-probe results are put into the cache that run_probe() consults.  Falls back to individual runs when the
+    combined build fails (then run_probe compiles each probe on its own)."""
+    files = [f for f in files if os.path.exists(os.path.join(PROBE_DIR, f)) and (scratch.dir, f) not in _CACHE]
+    if len(files) < 2:
+        return
+    metas = {}
+    for fn in files:
+        text = open(os.path.join(PROBE_DIR, fn)).read()
+        m = re.search(r"//@PROBE file=(\S+) test=(\S+) clauses=(\S+)", text)
+        if not m:
+            return
+        metas[fn] = (m.group(1), m.group(2), text)
+    # strip overlay lines from every file of the scratch copy (probes run on the unannotated real source)
+    saved = {}
+    for root, _, fs in os.walk(scratch.path("src")):
+        for f in fs:
+            pth = os.path.join(root, f)
+            t = open(pth).read()
+            if common.MARK in t or common.BEGIN in t:
+                saved[pth] = t
+                open(pth, "w").write(common.strip_overlay(t))
+    vs = scratch.path("src/verif_specs.rs")
+    vs_text = None
+    if os.path.exists(vs):
+        vs_text = open(vs).read()
+        os.remove(vs)
+    backups = {}
+    try:
+        for fn, (rel, test, text) in metas.items():
+            if rel not in backups:
+                backups[rel] = scratch.read(rel)
+            scratch.write(rel, scratch.read(rel) + "\n" + text + "\n")
+        os.makedirs(PROBE_TARGET, exist_ok=True)
+        rc, out, wall = run(["cargo", "test", "--offline", "--lib", "verif_probe_", "--", "--nocapture", "--test-threads=1"],
+                            cwd=scratch.dir, env={"CARGO_TARGET_DIR": PROBE_TARGET}, timeout=2400)
+    finally:
+        for rel, t in backups.items():
+            scratch.write(rel, t)
+        for pth, t in saved.items():
+            open(pth, "w").write(t)
+        if vs_text is not None:
+            open(vs, "w").write(vs_text)
+    if not re.search(r"test result: (ok|FAILED)\. (\d+) passed; (\d+) failed", out):
+        return  # combined build failed: individual runs will report which probe does not compile
+    # split the output at the `test <path> ... ok|FAILED` markers
+    pos = 0
+    for m in re.finditer(r"^test (\S+) \.\.\. (ok|FAILED)\s*$", out, re.M):
+        chunk = out[pos:m.end()]
+        pos = m.end()
+        name = m.group(1).split("::")[-1]
+        for fn, (rel, test, text) in metas.items():
+            if test == name:
+                keep = "\n".join(l for l in chunk.splitlines() if "PROBE" in l or "panicked" in l)
+                keep += "\ntest result: %s (run together with %d other probes in one cargo test invocation)" % (m.group(2), len(metas) - 1)
+                _CACHE[(scratch.dir, fn)] = (m.group(2) == "FAILED", keep[-12000:])
